@@ -195,20 +195,14 @@ func baseServerEffects(c *core.Ctx, R string) {
 		lenIs := func(field string, zero bool) core.Guard {
 			return func(x *core.Unit, br core.Branch) int {
 				cmp, ok := x.BranchCmp(br)
-				if !ok || cmp.Val == nil || cmp.Val.ExactString() != "0" {
+				if !ok || cmp.Val == nil {
 					return 0
 				}
 				ce, _ := ast.Unparen(cmp.X).(*ast.CallExpr)
 				if ce == nil || calleeNameOf0(ce) != "len" || len(ce.Args) != 1 || !strings.HasSuffix(selPath(ce.Args[0]), "."+field) {
 					return 0
 				}
-				isZeroEdge := 0
-				switch cmp.Op {
-				case token.EQL:
-					isZeroEdge = 1
-				case token.GTR, token.NEQ:
-					isZeroEdge = -1
-				}
+				isZeroEdge := -positiveEdge(cmp)
 				if zero {
 					return isZeroEdge
 				}
@@ -297,7 +291,7 @@ func baseServerEffects(c *core.Ctx, R string) {
 		g := u.Graph()
 		none := func(x *core.Unit, br core.Branch) int {
 			cmp, ok := x.BranchCmp(br)
-			if !ok || cmp.Val == nil || cmp.Val.ExactString() != "0" {
+			if !ok || cmp.Val == nil {
 				return 0
 			}
 			ce, _ := ast.Unparen(cmp.X).(*ast.CallExpr)
